@@ -323,6 +323,15 @@ def r4(ctx):
            sig="who-constructs: only _feature_returner", nontrivial=True)
 
 
+def _ctor_kwargs(ctx, cons):
+    """Keyword view of a recorded Feature(...) construction: positional arguments named after Feature.__init__'s parameters."""
+    init = ctx.proj.func("feature.Feature.__init__")
+    names = [p for p in init.params if p != "self"]
+    kw = dict(zip(names, cons[2] or []))
+    kw.update(cons[3] or {})
+    return kw
+
+
 def r5(ctx):
     gk = ctx.folder.const("constants", "_gffkeys")
     ai = gk.index("attributes")
@@ -355,7 +364,7 @@ def r5(ctx):
                     ctx.ob("R5", False, "a strict tab-separated line is turned into one Feature (%s)" % label, func=ffl,
                            sig="feature_from_line(%s): %s" % (label, t.result[:2] if t.result[0] != "return" else "%d constructions" % len(cons)))
                     continue
-                kw = cons[0][3]
+                kw = _ctor_kwargs(ctx, cons[0])
                 def nm(v):
                     if isinstance(v, Sym):
                         return v.name
@@ -410,7 +419,7 @@ def r5(ctx):
             ok = t.result[0] == "return" and len(cons) == 1 and len(sk) == 1
             got = None
             if ok:
-                kw = cons[0][3]
+                kw = _ctor_kwargs(ctx, cons[0])
                 got = {k: nm(kw.get(k)) for k in gk[:-1]}
                 got["<attribute text>"] = nm(sk[0][1][0]) if sk[0][1] else None
                 got["extra"] = nm(kw.get("extra"))
